@@ -1,6 +1,6 @@
 """C12 -- imported BLIF and ISCAS netlists compute the function the file defines.
 
-World: generated BLIF text (1..3 models, .names covers over <= 4 inputs with 1..5 product
+World: generated BLIF text (1..3 models, .names covers over <= 6 inputs with 1..5 product
 terms and don't-cares, constant covers, the special-cased gate shapes, .latch with every init
 code, every supported $_DFF*/$_SDFF* cell with its E/S/R pins, nested .subckt instantiation,
 outputs read internally, vector ports x[0..n-1]) imported with merge_io_vectors both ways,
@@ -124,7 +124,7 @@ def gen_model(rng, name, depth, lib, top):
             m['cmds'].append({'k': 'subckt', 'model': sub['name'], 'pins': pins})
             continue
         out = fresh()
-        nin = rng.choice([0, 1, 1, 2, 2, 2, 3, 4]) if r > 0.25 else rng.choice([1, 2])
+        nin = rng.choice([0, 1, 1, 2, 2, 2, 3, 4, 5, 6]) if r > 0.25 else rng.choice([1, 2])
         nin = min(nin, len(avail))
         ins = [rng.choice(avail) for _ in range(nin)]
         if nin == 0:
@@ -137,6 +137,8 @@ def gen_model(rng, name, depth, lib, top):
             rows = []
             for _k in range(rng.randint(1, 5)):
                 plane = ''.join(rng.choice('01-') for _ in range(nin))
+                if nin >= 4 and rng.random() < 0.4:
+                    plane = ''.join(rng.choice('01') for _ in range(nin))   # a full minterm
                 if set(plane) == {'-'} and rng.random() < 0.8:
                     plane = rng.choice('01') + plane[1:]
                 rows.append((plane, '1'))
